@@ -71,6 +71,17 @@ def templates(cfg):
         return c >> p.mutate(y=t.b.sum()) >> p.ungroup()
 
     T("grouping_survives_collect", grouping_survives_collect)
+    def grouping_survives_collect_summarize(p, t):
+        c = p.collect(t >> p.filter(t.a.is_not_null()) >> p.group_by(t.g))
+        return c >> p.summarize(s=t.b.sum(), n=p.count())
+
+    T("grouping_survives_collect_summarize", grouping_survives_collect_summarize)
+
+    def grouping_survives_collect_add(p, t):
+        c = p.collect(t >> p.group_by(t.g))
+        return c >> p.group_by(t.a, add=True) >> p.summarize(n=p.count())
+
+    T("grouping_survives_collect_add", grouping_survives_collect_add)
     T("grouping_survives_alias", lambda p, t: t >> p.group_by(t.g) >> p.alias("z") >> p.mutate(y=p.C.b.sum()) >> p.ungroup())
     T("grouping_survives_alias_summarize", lambda p, t: t >> p.group_by(t.g) >> p.alias("z") >> p.summarize(s=p.C.b.sum()))
 
